@@ -33,8 +33,11 @@ def pipeline(prop, tier, fam):
         if cfg is None:
             continue
         kw = {}
+        if m.get("pre"):
+            # e.g. random typed policy sets produced by the harness, handed to the TLC generator through the environment
+            kw["env_extra"] = m["pre"](fam, tier, wd, seed)
         if m.get("simulate"):
-            kw = dict(simulate=m["simulate"][tier], depth=m.get("depth", 50), seed_=seed)
+            kw.update(simulate=m["simulate"][tier], depth=m.get("depth", 50), seed_=seed)
         r = vlib.run_model(m["module"], cfg, wd, m["name"], timeout=m.get("timeout", 3000), workers=m.get("workers"), **kw)
         if not r["ok"]:
             sys.stderr.write(r["tail"])
